@@ -414,7 +414,26 @@ def f_concat(args):
     return out
 
 
+def f_sign(args):
+    v = _scalar(args[0])
+    if isinstance(v, Err):
+        return v
+    x = num_of(v)
+    if isinstance(x, Err):
+        return x
+    return (x > 0) - (x < 0)
+
+
+def f_abs(args):
+    v = _scalar(args[0])
+    if isinstance(v, Err):
+        return v
+    x = num_of(v)
+    return x if isinstance(x, Err) else abs(x)
+
+
 EAGER = {
+    'SIGN': f_sign, 'ABS': f_abs,
     'SUM': f_sum, 'AVERAGE': f_average, 'MIN': f_min, 'MAX': f_max,
     'COUNT': f_count, 'COUNTA': f_counta, 'SUMPRODUCT': f_sumproduct,
     'CONCAT': f_concat, 'CONCATENATE': f_concat,
